@@ -731,12 +731,12 @@ impl<'a> CompilerState<'a> {
         let mut inner = p.into_inner();
         let pair = inner.next().unwrap();
         //debug!("Compile statement: {:?}\ninner:{:?}", pair, inner);
-        let pos = pair.as_span().start();
         match pair.as_rule() {
             Rule::label => {
                 let statement = self.compile_statement_ex(inner.next().unwrap())?;
                 Ok(StatementLoc {
-                    pos,
+                    // The position of the statement, not of its label (which may be lines above)
+                    pos: statement.pos,
                     label: Some(pair.into_inner().next().unwrap().as_str().to_string()),
                     statement: statement.statement,
                 })
